@@ -47,6 +47,7 @@
 #define OPS_LEN_LONGFP 0x00002000 /* long double (f, F, e, E, g, G, a, A) */
 #define OPS_SPEC_UPPER_CASE 0x00004000 /* specifier is tall */
 #define OPS_SPEC_POINTER 0x00008000    /* %p: the 0x prefix is always printed */
+#define OPS_CHAR_ARG 0x00010000        /* %c: print one byte, whatever it is */
 
 /**
  * Options for print_s
@@ -80,8 +81,9 @@ static int print_s(void (*printchar_handler)(void *d, int c),
     pc = 0;
     /* with a precision at most max_len bytes may be examined (the argument
      * need not be terminated) */
-    len = (ops & OPS_PREC_IS_GIVEN) ? (int)strnlen(str, (size_t)max_len)
-                                    : (int)strlen(str);
+    len = (ops & OPS_CHAR_ARG)        ? 1
+          : (ops & OPS_PREC_IS_GIVEN) ? (int)strnlen(str, (size_t)max_len)
+                                      : (int)strlen(str);
     space_count = width > len ? width - len : 0;
 
     if (!(ops & OPS_FLAG_LEFT_ALIGN))
@@ -583,12 +585,14 @@ int __printf(void (*printchar_handler)(void *d, int c),
             /* TODO handle (ops & OPS_LEN_LONG) for wint_t */
             tmp.ca[0] = (char)va_arg(args, int);
             tmp.ca[1] = '\0';
+            /* exactly one character, also when it is the null character; a
+             * precision has no meaning for c */
             pc += print_s(printchar_handler,
                           printchar_data,
                           &tmp.ca[0],
                           width,
-                          precision,
-                          ops);
+                          1,
+                          (ops | OPS_PREC_IS_GIVEN) | OPS_CHAR_ARG);
             break;
         case 's':
             /* TODO handle (ops & OPS_LEN_LONG) for wchar_t* */
